@@ -59,6 +59,7 @@ type dPkg struct {
 	structs map[string]*ast.StructType
 	named   map[string]ast.Expr // non-struct named types
 	methods map[string]map[string]*ast.FuncDecl
+	funcs   map[string]*ast.FuncDecl
 	file    map[ast.Node]string
 }
 
@@ -78,7 +79,7 @@ func (p *dPkg) loc(n ast.Node) string {
 
 func loadPkg(repo, name string) (*dPkg, error) {
 	p := &dPkg{name: name, fset: token.NewFileSet(), src: map[string][]byte{}, structs: map[string]*ast.StructType{},
-		named: map[string]ast.Expr{}, methods: map[string]map[string]*ast.FuncDecl{}}
+		named: map[string]ast.Expr{}, methods: map[string]map[string]*ast.FuncDecl{}, funcs: map[string]*ast.FuncDecl{}}
 	files, _ := filepath.Glob(filepath.Join(repo, name, "*.go"))
 	sort.Strings(files)
 	for _, f := range files {
@@ -112,6 +113,9 @@ func loadPkg(repo, name string) (*dPkg, error) {
 					}
 				}
 			case *ast.FuncDecl:
+				if d.Recv == nil && d.Body != nil {
+					p.funcs[d.Name.Name] = d
+				}
 				if d.Recv == nil || len(d.Recv.List) == 0 || d.Body == nil {
 					continue
 				}
@@ -553,6 +557,141 @@ const mapUnmarshal = `{
 	return
 }`
 
+// hand-modelled pieces of the round trip (model: rtTypes, stepAddProps, entryStep / nullFix in Marshal.lean): their
+// bodies are compared with the text the model was written from; any change makes the row non-uniform
+const typesMarshalYAML = `{
+	if pTypes == nil {
+		return nil, nil
+	}
+	types := *pTypes
+	switch len(types) {
+	case 0:
+		return nil, nil
+	case 1:
+		return types[0], nil
+	default:
+		return []string(types), nil
+	}
+}`
+const typesMarshalJSON = `{
+	x, err := pTypes.MarshalYAML()
+	if err != nil {
+		return nil, err
+	}
+	return json.Marshal(x)
+}`
+const typesUnmarshal = `{
+	var strings []string
+	if err := json.Unmarshal(data, &strings); err != nil {
+		var s string
+		if err := json.Unmarshal(data, &s); err != nil {
+			return unmarshalError(err)
+		}
+		strings = []string{s}
+	}
+	*types = strings
+	return nil
+}`
+const addPropsMarshalYAML = `{
+	if x := addProps.Has; x != nil {
+		if *x {
+			return true, nil
+		}
+		return false, nil
+	}
+	if x := addProps.Schema; x != nil {
+		return x.MarshalYAML()
+	}
+	return nil, nil
+}`
+const addPropsMarshalJSON = `{
+	x, err := addProps.MarshalYAML()
+	if err != nil {
+		return nil, err
+	}
+	return json.Marshal(x)
+}`
+const addPropsUnmarshal = `{
+	var x any
+	if err := json.Unmarshal(data, &x); err != nil {
+		return unmarshalError(err)
+	}
+	switch y := x.(type) {
+	case nil:
+	case bool:
+		addProps.Has = &y
+	case map[string]any:
+		if len(y) == 0 {
+			addProps.Schema = &SchemaRef{Value: &Schema{}}
+		} else {
+			buf := new(bytes.Buffer)
+			json.NewEncoder(buf).Encode(y)
+			if err := json.NewDecoder(buf).Decode(&addProps.Schema); err != nil {
+				return err
+			}
+		}
+	default:
+		return errors.New("cannot unmarshal additionalProperties: value must be either a schema object or a boolean")
+	}
+	return nil
+}`
+const stringMapP = `{
+	var m map[string]any
+	if err := json.Unmarshal(data, &m); err != nil {
+		return nil, nil, err
+	}
+
+	origin, err := popOrigin(m, originKey)
+	if err != nil {
+		return nil, nil, err
+	}
+
+	result := make(map[string]*V, len(m))
+	for k, v := range m {
+		value, err := deepCast[V](v)
+		if err != nil {
+			return nil, nil, err
+		}
+		result[k] = value
+	}
+
+	return result, origin, nil
+}`
+const stringMapV = `{
+	var m map[string]any
+	if err := json.Unmarshal(data, &m); err != nil {
+		return nil, nil, err
+	}
+
+	origin, err := popOrigin(m, originKey)
+	if err != nil {
+		return nil, nil, err
+	}
+
+	result := make(map[string]V, len(m))
+	for k, v := range m {
+		value, err := deepCast[V](v)
+		if err != nil {
+			return nil, nil, err
+		}
+		result[k] = *value
+	}
+
+	return result, origin, nil
+}`
+const deepCastBody = `{
+	data, err := json.Marshal(value)
+	if err != nil {
+		return nil, err
+	}
+
+	var result V
+	if err = json.Unmarshal(data, &result); err != nil {
+		return nil, err
+	}
+	return &result, nil
+}`
+
 func fieldType(st *ast.StructType, name string) ast.Expr {
 	for _, f := range st.Fields.List {
 		for _, n := range f.Names {
@@ -690,6 +829,42 @@ func extractDescriptors(repo string) (string, error) {
 			kinds = append(kinds, k)
 		}
 	}
+	// named map types with an unmarshaller of their own, and the hand-modelled pieces
+	for _, pn := range []string{"openapi3", "openapi2"} {
+		p := pkgs[pn]
+		names := []string{}
+		for n := range p.named {
+			names = append(names, n)
+		}
+		sort.Strings(names)
+		for _, n := range names {
+			mt, isMap := p.named[n].(*ast.MapType)
+			uf := p.methods[n]["UnmarshalJSON"]
+			if !isMap || uf == nil {
+				continue
+			}
+			_, sh := classify(pkgs, pn, &ast.Ident{Name: n}, 0)
+			k := &dKind{pkg: pn, name: n, template: "namedMap", valueKind: sh, hasUnm: true}
+			r := recvName(uf)
+			vt := p.text(mt.Value)
+			k.uniform = p.bodyIs(uf, "{ *"+r+", _, err = unmarshalStringMap["+vt+"](data)\n return }") ||
+				(strings.HasPrefix(vt, "*") && p.bodyIs(uf, "{ *"+r+", _, err = unmarshalStringMapP["+vt[1:]+"](data)\n return }"))
+			kinds = append(kinds, k)
+		}
+	}
+	{
+		p := pkgs["openapi3"]
+		special := func(name string, ok bool) {
+			kinds = append(kinds, &dKind{pkg: "openapi3", name: name, template: "special", uniform: ok})
+		}
+		tm, am := p.methods["Types"], p.methods["AdditionalProperties"]
+		special("Types", p.bodyIs(tm["MarshalYAML"], typesMarshalYAML) && p.bodyIs(tm["MarshalJSON"], typesMarshalJSON) && p.bodyIs(tm["UnmarshalJSON"], typesUnmarshal) &&
+			squash(p.text(p.named["Types"])) == "[]string")
+		special("AdditionalProperties", p.bodyIs(am["MarshalYAML"], addPropsMarshalYAML) && p.bodyIs(am["MarshalJSON"], addPropsMarshalJSON) && p.bodyIs(am["UnmarshalJSON"], addPropsUnmarshal))
+		special("unmarshalStringMapP", p.bodyIs(p.funcs["unmarshalStringMapP"], stringMapP))
+		special("unmarshalStringMap", p.bodyIs(p.funcs["unmarshalStringMap"], stringMapV))
+		special("deepCast", p.bodyIs(p.funcs["deepCast"], deepCastBody))
+	}
 	// emit
 	var b strings.Builder
 	b.WriteString("-- GENERATED by go/cmd/extract (table Descriptors) from the repository under test; do not edit.\n")
@@ -727,6 +902,9 @@ func extractDescriptors(repo string) (string, error) {
 		}
 		if k.template == "alias" {
 			vk = fmt.Sprintf("(.kind %q)", k.valueKind)
+		}
+		if k.template == "special" {
+			vk = ".leaf"
 		}
 		sep := ","
 		if i == len(kinds)-1 {
